@@ -14,6 +14,8 @@ import (
 	"runtime/debug"
 	"sort"
 	"strconv"
+
+	"google.golang.org/protobuf/encoding/protowire"
 	"strings"
 	"testing"
 	"testing/synctest"
@@ -265,6 +267,13 @@ func marshalMsg(codec string, m proto.Message) []byte {
 	var b []byte
 	var err error
 	if codec == "json" {
+		// a field that only the backends' build of an embedded message
+		// declares travels as what it is there: a JSON member
+		if f := m.ProtoReflect().Descriptor().Fields().ByName("payload"); f != nil && f.Message() != nil && m.ProtoReflect().Has(f) && len(m.ProtoReflect().Get(f).Message().GetUnknown()) > 0 {
+			if nm := backendBuildOf(m); nm != nil {
+				m = nm
+			}
+		}
 		b, err = jsonMarshal.Marshal(m)
 	} else {
 		b, err = proto.MarshalOptions{}.Marshal(m)
@@ -289,7 +298,28 @@ func (r *reqState) clientMsg(i int) proto.Message {
 	if r.unknownField(i) {
 		withUnknown(m, r.spec.Msgs[i].Seed)
 	}
+	if r.nestedNote(i) {
+		withNestedNote(m, r.spec.Msgs[i].Seed)
+	}
 	return m
+}
+
+// nestedNote: a JSON client of a method that only a backend serves sets the
+// field that the backend's build of the embedded Payload has and the gateway's
+// does not (C10: the descriptors of a proxied method are the backend's, at
+// every depth).
+func (r *reqState) nestedNote(i int) bool {
+	return r.spec.Msgs[i].Note || r.spec.Msgs[i].Unknown && r.spec.Codec == "json" && r.spec.Backend != "" && r.spec.Proto != "direct" && r.mr != nil && r.mr.sc.Prop == "C10"
+}
+
+func withNestedNote(m proto.Message, seed uint64) {
+	f := m.ProtoReflect().Descriptor().Fields().ByName("payload")
+	if f == nil || f.Message() == nil || f.Message().FullName() != "grpc.testing.Payload" || !m.ProtoReflect().Has(f) {
+		return
+	}
+	raw := protowire.AppendTag(nil, 15, protowire.BytesType)
+	raw = protowire.AppendString(raw, "note-"+strconv.FormatUint(seed%1000, 10))
+	m.ProtoReflect().Mutable(f).Message().SetUnknown(raw)
 }
 
 // unknownField: only where the undeclared field can travel (binary protobuf
@@ -311,6 +341,9 @@ func (r *reqState) expectedReq(i int) proto.Message {
 	m := r.method.mkReq(p, pv)
 	if r.unknownField(i) {
 		withUnknown(m, r.spec.Msgs[i].Seed)
+	}
+	if r.nestedNote(i) {
+		withNestedNote(m, r.spec.Msgs[i].Seed)
 	}
 	if u, ok := m.(*testpb.UploadFileRequest); ok && r.spec.Proto == "http" && r.spec.Codec == "body" && u.File != nil {
 		u.File.ContentType = r.spec.bodyCT() // the chunk messages carry the request's Content-Type
